@@ -2,7 +2,7 @@ SPECIFICATION Spec
 CONSTANTS
   Annots <- AnSmall
   OvChoices <- OvSmall
-  DfChoices <- DfSmall
+  DfChoices <- DfThree
   SpChoices <- SpNone
   BoundVals = {24, 7}
   MaxFuncs = 1
